@@ -30,6 +30,10 @@ def step (st : S) (toks : List String) : S × String :=
       | some (_, d) => (st, if d == digest then "ok" else "CHANGED")
       | none => ({ st with handles := (hid, digest) :: st.handles }, "ok")
     | none => (st, "bad-op")
+  | ["shared", ints, present, w, n] =>
+    match natList ints, parseNat w, parseNat n with
+    | some i, some w, some n => (st, if Bleve.History.sharedOK i (present == "1") w n then "ok" else "SHARED-INCONSISTENT")
+    | _, _, _ => (st, "bad-op")
   | "echo" :: rest => (st, " ".intercalate rest)
   | _ => (st, "bad-op")
 end Bleve.Drv.C04
